@@ -525,7 +525,12 @@ def run(ctx):
                 "write_eblif_cname, and parsed again; distinct = distinct text, non-trivial = >=3 instances or >=2 with a bus port")
     ctx.assumptions = [
         "domain of the random stream: first model is the top model, further models are .blackbox models closed by .end; "
-        "names without * ? = # and without the substring unconn; base names do not end in _<digits>; one driver per net bit; "
+        "(black-box models may also stand before the top model when the first of them is instantiated by it: the reader "
+        "elects the first .model and re-elects through check_hierarchy; a first model the top never instantiates stays top, "
+        "as in BLIF); non-black-box sub-models are out of scope (the format support is flat); text outside any .model is "
+        "ignored (lines without the words # and .model are generated); "
+        "names without * ? = # (get_ports/get_cables treat * ? as globs; = splits formal from actual) and without the "
+        "substring unconn; base names do not end in _<digits>; two drivers on one net bit only in the `multi-driver` class; "
         ".cname distinct from net names; `\\` only as last word of a statement line; no comment between truth-table rows",
         "instance identity across write-then-read is positional (the writer's category order subckt, gate, other, names, latch); "
         "names are compared only when write_eblif_cname is on; the bookkeeping key `unconn` and black-box port directions are "
